@@ -47,7 +47,7 @@ class cache_get:
     another worker thread)."""
     params = dict(self=TCache(), backend=T.Backend())
     replay = staticmethod(_replay_cache)
-    result = lambda interp, bound: list(bound["self"].attrs["_dict"].values())[0]
+    inline = True       # callers execute the lookup itself (a dictionary read through Backend.__hash__ / __eq__)
     ensures = {
         "pure_read": "writes_to(self._dict) == 0",
         "hit": "result is not None and len(self._dict) == 1",
